@@ -47,11 +47,11 @@ CONSTANTS
   Permissive,
   Bug
 
-AuthCmds  == {"R", "W", "A"}       \* registered with Server.Handle
+AuthCmds  == {"R", "W", "A", "I"}  \* registered with Server.Handle
 RawCmds   == {"X"}                 \* registered with Server.HandleRaw
 OtherCmds == {"U"}                 \* not registered
 AllCmds   == AuthCmds \cup RawCmds \cup OtherCmds
-Kinds     == {"honest", "skipsKeyAgreement", "unauthenticated"}
+Kinds     == {"honest", "skipsKeyAgreement", "noCipher", "unauthenticated"}
 Wants     == {"weak", "strong"}
 None      == "none"
 Anon      == "anon"                \* identity of an unauthenticated session
@@ -67,17 +67,20 @@ Policy(t) ==
   THEN [c \in AllCmds |->
           CASE c = "W" -> L("REQUIRED", "OPTIONAL", "OPTIONAL")
             [] c = "A" -> L("REQUIRED", "REQUIRED", "REQUIRED")
+            [] c = "I" -> L("OPTIONAL", "OPTIONAL", "REQUIRED")   \* integrity only
             [] OTHER   -> L("OPTIONAL", "OPTIONAL", "OPTIONAL")]
   ELSE [c \in AllCmds |->
           CASE c = "R" -> L("OPTIONAL", "OPTIONAL", "REQUIRED")
             [] c = "W" -> L("REQUIRED", "PREFERRED", "OPTIONAL")
             [] c = "A" -> L("PREFERRED", "REQUIRED", "OPTIONAL")
+            [] c = "I" -> L("OPTIONAL", "PREFERRED", "REQUIRED")
             [] OTHER   -> L("OPTIONAL", "OPTIONAL", "OPTIONAL")]
 
 Perms == [c \in AllCmds |->
             CASE c = "R" -> {"READ"}
               [] c = "W" -> {"WRITE"}
               [] c = "A" -> {"ADMIN", "DAEMON"}
+              [] c = "I" -> {"READ"}
               [] OTHER   -> {}]
 
 AllUsers == {"alice", "bob", Anon}
@@ -174,23 +177,24 @@ Ideal(cmd, kind, want) ==
   LET p  == Policy(ptab)[cmd]
       cl == ClientLevels(kind, want)
       a  == Decide(p.auth, cl.auth, kind # "unauthenticated")
-      e  == Decide(p.enc, cl.enc, TRUE)
+      e  == Decide(p.enc, cl.enc, kind # "noCipher")
+      keyless == kind \in {"skipsKeyAgreement", "noCipher"}
   IN IF a = "fail" \/ e = "fail" THEN Failed
-     ELSE IF kind = "skipsKeyAgreement"
-          THEN IF e = "yes"
-               THEN IF "TrustReportedEnc" \in Bug
-                    THEN Out(TRUE, a = "yes", FALSE, a = "yes", TRUE)   \* today's code
+     ELSE IF keyless
+          THEN IF e = "yes" \/ p.integ = "REQUIRED"     \* protection demanded, no key: refuse
+               THEN IF "TrustReportedEnc" \in Bug /\ e = "yes"
+                    THEN Out(TRUE, a = "yes", FALSE, a = "yes", TRUE)   \* the pinned tree's code
                     ELSE Failed
                ELSE Out(TRUE, a = "yes", FALSE, a = "yes", FALSE)
           ELSE Out(TRUE, a = "yes", TRUE, a = "yes", TRUE)
 
 \* everything that is physically possible for the client kind: an
-\* unauthenticated client proves no identity, a client that skips the key
-\* agreement shares no key with the server.
+\* unauthenticated client proves no identity; a client that skips the key
+\* agreement, or offers no cipher the server knows, shares no key with it.
 Possible(kind) ==
   { Out(TRUE, a, e, a, e) :
       a \in (IF kind = "unauthenticated" THEN {FALSE} ELSE BOOLEAN),
-      e \in (IF kind = "skipsKeyAgreement" THEN {FALSE} ELSE BOOLEAN) }
+      e \in (IF kind \in {"skipsKeyAgreement", "noCipher"} THEN {FALSE} ELSE BOOLEAN) }
   \cup {Failed}
   \cup (IF "TrustReportedEnc" \in Bug /\ kind = "skipsKeyAgreement"
         THEN { Out(TRUE, a, FALSE, a, TRUE) : a \in BOOLEAN } ELSE {})
@@ -269,8 +273,9 @@ Guard(cmd) ==
   LET n   == conn.neg
       p   == Policy(ptab)[cmd]
       es  == IF "TrustReportedEnc" \in Bug THEN n.encFlag ELSE n.encReal
+      ni  == p.integ = "REQUIRED" /\ "IntegrityForgotten" \notin Bug
       lvl == /\ (p.auth = "REQUIRED" => n.authReal)
-             /\ ((p.enc = "REQUIRED" \/ p.integ = "REQUIRED") => es)
+             /\ ((p.enc = "REQUIRED" \/ ni) => es)
       az  == IF "StaleAuthz" \in Bug THEN AuthzOK(cmd, n.atab0, n.user)
              ELSE AuthzOK(cmd, atab, n.user)
       skipAll == "NoFollowOnCheck" \in Bug /\ conn.via = "followon"
